@@ -51,6 +51,16 @@ pub fn run(out: &mut Out, seed: u64, tier: &str) {
             queue.push((distort(a, 0.03, &mut rng), distort(b, 0.05, &mut rng)));
         }
     }
+    // one element in two coordination numbers (SO3 next to sulfate, SiR3 next to SiR4, ClF3 next to ClO4, a metal with four and with
+    // six ligands): what is decided per atom from its own neighbours (environment, bend form) must not be shared per element or type
+    for (k, z) in [16usize, 14, 15, 17, 13, 26, 22, 29, 30, 46, 78, 42].iter().enumerate() {
+        let shells = ["trigonal", "tetrahedral", "square", "octahedral", "tbp", "pyramidal", "tshape"];
+        let (g1, g2) = (shells[k % shells.len()], shells[(k * 3 + 1) % shells.len()]);
+        if g1 == g2 { continue; }
+        let lig = *rng.pick(&[8usize, 9, 17, 1]);
+        queue.push((distort(&centre(*z, lig, g1, 1.0), 0.03, &mut rng), distort(&centre(*z, lig, g2, 1.0), 0.03, &mut rng)));
+        if tier == "thorough" || k % 2 == 0 { queue.push((distort(&centre(*z, lig, "trigonal", 1.0), 0.03, &mut rng), distort(&centre(*z, lig, "tetrahedral", 1.0), 0.03, &mut rng))); }
+    }
     for pair in 0..(n_pairs + queue.len()) {
         // every fifth pair is systematic: a library molecule (lone pairs, pi systems) next to a four-coordinate metal centre —
         // the typing of such a centre (formal charge, d8-ness, square-planar vs tetrahedral) must not depend on its neighbour
